@@ -13,8 +13,7 @@ Qed.
 
 Lemma zmem_false : forall x l, zmem x l = false <-> ~ In x l.
 Proof.
-  intros x l. rewrite <- zmem_In. destruct (zmem x l); split; intros H; try congruence.
-  exfalso. apply H. reflexivity.
+  intros x l. rewrite <- zmem_In. destruct (zmem x l); split; intros H; congruence.
 Qed.
 
 Lemma zrem_In : forall x y l, In y (zrem x l) <-> In y l /\ y <> x.
@@ -109,6 +108,9 @@ Proof.
   - rewrite rget_rdel_neq in H; assumption.
 Qed.
 
+Ltac psimpl := cbn [pm_free pm_used pm_res pm_take pm_clean].
+Tactic Notation "psimpl" "in" hyp(H) := cbn [pm_free pm_used pm_res pm_take pm_clean] in H.
+
 (* ---------- the partition invariant ---------- *)
 Definition used_by (s : pm) (p : Z) : Prop := uget p (pm_used s) <> None.
 
@@ -130,11 +132,11 @@ Qed.
 
 Lemma pinv_take : forall A s n p, PInv A s -> In p A -> PInv A (pm_take s n p).
 Proof.
-  intros A s n p [Hn Hd Hc Hr] HA. constructor; simpl.
+  intros A s n p [Hn Hd Hc Hr] HA. constructor; psimpl.
   - apply zrem_NoDup; assumption.
   - intros q Hq. apply zrem_In in Hq. destruct Hq as [Hq Ne].
     rewrite uget_uset_neq by assumption. auto.
-  - intros q. unfold used_by. simpl. destruct (Z.eq_dec q p) as [->|Ne].
+  - intros q. unfold used_by. psimpl. destruct (Z.eq_dec q p) as [->|Ne].
     + rewrite uget_uset_eq. split; [right; discriminate|auto].
     + rewrite uget_uset_neq by assumption. rewrite zrem_In. rewrite (Hc q). unfold used_by. tauto.
   - intros m q H. destruct (String.eqb_spec m n) as [->|Ne].
@@ -145,12 +147,12 @@ Qed.
 Lemma pinv_release : forall A s p, PInv A s -> PInv A (pm_release s p).
 Proof.
   intros A s p [Hn Hd Hc Hr]. unfold pm_release. destruct (uget p (pm_used s)) eqn:E; [|constructor; assumption].
-  constructor; simpl.
+  constructor; psimpl.
   - apply zadd_NoDup; assumption.
   - intros q Hq. apply zadd_In in Hq. destruct (Z.eq_dec q p) as [->|Ne].
     + apply uget_udel_eq.
     + rewrite uget_udel_neq by assumption. destruct Hq; [congruence|auto].
-  - intros q. unfold used_by. simpl. rewrite zadd_In. destruct (Z.eq_dec q p) as [->|Ne].
+  - intros q. unfold used_by. psimpl. rewrite zadd_In. destruct (Z.eq_dec q p) as [->|Ne].
     + rewrite uget_udel_eq. split; [auto|]. intros _. apply Hc. right. unfold used_by. congruence.
     + rewrite uget_udel_neq by assumption. rewrite (Hc q). unfold used_by. tauto.
   - assumption.
@@ -158,7 +160,7 @@ Qed.
 
 Lemma pinv_clean : forall A s n, PInv A s -> PInv A (pm_clean s n).
 Proof.
-  intros A s n [Hn Hd Hc Hr]. constructor; simpl; try assumption.
+  intros A s n [Hn Hd Hc Hr]. constructor; psimpl; try assumption.
   intros m q H. apply rget_rdel_some in H. eauto.
 Qed.
 
@@ -242,7 +244,7 @@ Proof.
   { intros k HA Hp -> ->.
     assert (Hnu : ~ used_by s k) by (intros U; apply Hb in U; congruence).
     assert (Hf : In k (pm_free s)) by (apply (pi_cover _ _ HI) in HA; tauto).
-    repeat split; try assumption; simpl.
+    repeat split; try assumption; psimpl.
     - apply uget_uset_eq.
     - rewrite zrem_In. tauto.
     - apply rget_rset_eq. }
@@ -269,12 +271,12 @@ Qed.
 (* the hypothesis about the probe cannot be dropped: a reachable state and a probe on which the
    reserved path returns a port that another name owns (and takes it over) *)
 Definition steal_ops : list pop :=
-  [PAcq "a" 0 (fun _ => true) (Some 10); PRel 10; PAcq "b" 10 (fun _ => true) None].
+  [PAcq "a"%string 0 (fun _ => true) (Some 10); PRel 10; PAcq "b"%string 10 (fun _ => true) None].
 
 Theorem acquire_exclusive_any_probe_refuted :
   exists s s', pm_run steal_ops (pm_new [(10, 12, 0)]) = Some s /\
     uget 10 (pm_used s) = Some "b"%string /\
-    pm_acquire (fun _ => true) None s "a" 0 = Some (s', POk 10) /\
+    pm_acquire (fun _ => true) None s "a"%string 0 = Some (s', POk 10) /\
     uget 10 (pm_used s') = Some "a"%string.
 Proof. eexists. eexists. vm_compute. repeat split. Qed.
 
@@ -300,7 +302,7 @@ Qed.
 (* ... and needs "0 is not an allowed port": with allowPorts 0-2 the random path can pick 0, record
    it as used and then report ErrNoAvailablePort *)
 Theorem acquire_error_unchanged_port0_refuted :
-  exists s', pm_acquire (probe_of []) (Some 0) (pm_new [(0, 2, 0)]) "a" 0 = Some (s', PErr ENoAvail) /\
+  exists s', pm_acquire (probe_of []) (Some 0) (pm_new [(0, 2, 0)]) "a"%string 0 = Some (s', PErr ENoAvail) /\
              uget 0 (pm_used s') = Some "a"%string /\ ~ In 0 (pm_free s').
 Proof. eexists. vm_compute. repeat split. intros [H|[H|H]]; [discriminate|discriminate|exact H]. Qed.
 
@@ -359,7 +361,7 @@ Theorem release_frees : forall A s p,
   pm_res s' = pm_res s.
 Proof.
   intros A s p HI U. unfold pm_release. unfold used_by in U.
-  destruct (uget p (pm_used s)) eqn:E; [|congruence]. simpl. unfold used_by. simpl.
+  destruct (uget p (pm_used s)) eqn:E; [|congruence]. simpl. unfold used_by. psimpl.
   repeat split.
   - apply zadd_In. auto.
   - rewrite uget_udel_eq. congruence.
@@ -402,7 +404,7 @@ Proof.
   intros s o s' out n H T. destruct o as [m port probe ch|port|m]; simpl in H, T.
   - destruct (String.eqb_spec m n) as [|Ne]; [discriminate|].
     assert (K : forall k, rget n (pm_res (pm_take s m k)) = rget n (pm_res s))
-      by (intros k; simpl; apply rget_rset_neq; congruence).
+      by (intros k; psimpl; apply rget_rset_neq; congruence).
     destruct (pm_acquire probe ch s m port) as [[s1 r]|] eqn:E; [|discriminate].
     inversion H; subst. unfold pm_acquire, pm_random in E.
     repeat match type of E with
@@ -410,7 +412,7 @@ Proof.
            end; inversion E; subst; auto.
   - inversion H; subst. unfold pm_release. destruct (uget port (pm_used s)); reflexivity.
   - destruct (String.eqb_spec m n) as [|Ne]; [discriminate|].
-    inversion H; subst. simpl. apply rget_rdel_neq. congruence.
+    inversion H; subst. psimpl. apply rget_rdel_neq. congruence.
 Qed.
 
 Theorem reserved_persists : forall ops s s' n,
@@ -440,6 +442,9 @@ Proof.
 Qed.
 
 (* ---------- the no-available-port answer is justified ---------- *)
+Lemma filter_length_le : forall (f : Z -> bool) l, (length (filter f l) <= length l)%nat.
+Proof. induction l as [|x r IH]; simpl; [lia|]. destruct (f x); simpl; lia. Qed.
+
 Theorem noavail_means_probe_failures : forall probe s n s',
   pm_random probe None s n = Some (s', PErr ENoAvail) ->
   (Z.of_nat (length (pm_free s)) <= 5 -> forall p, In p (pm_free s) -> probe p = false) /\
